@@ -197,7 +197,7 @@ def check_c12(tier, seed):
     design_handle(out, [(3, 3, 1)] + ([(3, 4, 1), (2, 3, 2)] if tier == "thorough" else []))
     from .checks import design_chainio
     design_chainio(out, 3, 2 if tier == "quick" else 3, 2 if tier == "quick" else 3)
-    wl = [hgens.ro_workload(3, 1024), hgens.ro_workload(4, None)]
+    wl = [hgens.ro_workload(3, 1024), hgens.ro_workload(4, None), hgens.ro_small_workload(3, None), hgens.ro_small_workload(4, 1024)]
     if tier == "thorough":
         wl += [hgens.ro_workload(3, None), hgens.ro_workload(4, 1024), hgens.ro_workload(3, 2560)]
     hs = fault_histories(wl, "r", tier, rng, "ro")
@@ -210,7 +210,7 @@ def check_c12(tier, seed):
     run_batch(out, "open_faults", "A", hs, spec="Trace_Handle", driver="hdrive")
     # the same positions failing with ErrorKind::Interrupted, which std's read_exact loops retry silently:
     # a retried transfer must not have moved anything
-    hs = fault_histories(wl[:2] if tier == "quick" else wl, "r", "quick" if tier == "quick" else "thorough", rng, "roi", kind="interrupted")
+    hs = fault_histories(wl[:3] if tier == "quick" else wl, "r", "quick" if tier == "quick" else "thorough", rng, "roi", kind="interrupted")
     hs = [h for h in hs if len(h["faults"]["at"]) == 1]
     run_batch(out, "interrupted", "A", hs, spec="Trace_Handle", driver="hdrive")
     return finish(out, "fault_enumeration",
